@@ -1,4 +1,4 @@
-import DDProofs.MddReach
+import DDProofs.MddLedger
 
 /-!
 # The keys of `MDD._ref` are nodes
@@ -21,6 +21,14 @@ theorem RefKeys.mem {m : MddMgr} (h : RefKeys m) (k : Nat) (hk : m.ref.contains 
   · right
     show (m.tbl.succ[((k : Nat) : Int).natAbs]?).isSome = true
     simp only [Int.natAbs_natCast]
+    rw [← TreeMap.contains_eq_isSome_getElem?]; exact h1
+
+theorem RefKeys.mem' {m : MddMgr} (h : RefKeys m) (r : Int) (hk : m.ref.contains r.natAbs = true) :
+    m.tbl.Mem r := by
+  rcases h _ hk with h1 | h1
+  · exact Or.inl h1
+  · right
+    show (m.tbl.succ[r.natAbs]?).isSome = true
     rw [← TreeMap.contains_eq_isSome_getElem?]; exact h1
 
 theorem mAllocate_rk (m : MddMgr) (r : Except Err Nat) (m' : MddMgr) (h : mAllocate m = (r, m'))
@@ -343,17 +351,5 @@ theorem RefKeys.init (dv : List MVar) : RefKeys (MddMgr.new (some dv)) := by
   rw [this, TreeMap.contains_insert] at hk
   have h1 : 1 = k := by simpa using hk
   exact h1.symm
-
-/-- in every reachable state the keys of `_ref` are nodes -/
-theorem MReach.refKeys {dv : List MVar} {m : MddMgr} {ext : Nat → Nat} (h : MReach dv m ext) :
-    RefKeys m := by
-  induction h with
-  | init => exact RefKeys.init dv
-  | foa i nodes r m' _ _ hr ih => exact mFindOrAdd_rk _ _ _ _ _ hr ih
-  | ite g u v w m' _ _ _ _ hr ih => exact mIte_rk _ _ _ _ _ _ hr ih
-  | apply op c u v w r m' _ _ hr ih => exact mApply_rk _ _ _ _ _ _ _ hr ih
-  | incref u m' _ _ hr ih => exact mIncref_rk _ _ _ _ hr ih
-  | decref u m' _ _ _ hr ih => exact mDecref_rk _ _ _ _ hr ih
-  | gc roots m' _ hr ih => exact mCollectGarbage_rk _ _ _ hr ih
 
 end DD
